@@ -76,6 +76,15 @@ CHECKS["C07"] = dict(
     note="Bound: one fault per call, int defaults (symbolic), 8 (thorough 12) call shapes x 3 (5) stacks. " + NETNOTE,
     design="3 (C07)", technique=CH)
 
+CHECKS["C03"] = dict(
+    text="Bounded symbolic execution of the real readers (_readline, _readvalue, _readsegment, _recv) on a symbolic stream "
+         "(every byte value) with a symbolic carried buffer, every subset of cut positions and EINTR before any recv, compared "
+         "with the one-piece run and with an independent find()/slice specification; and of 18 public-call scenarios whose "
+         "reply carries a symbolic value, delivered with a symbolic cut / receive size 4 / EINTR, compared with the one-piece "
+         "result. All shards exhaust.",
+    note="Bound: streams <= 4 bytes + buffer <= 1 (thorough 6-8 + 2), values 0/2/3 bytes, one cut + receive size 4. " + NETNOTE,
+    design="3 (C03)", technique=CH)
+
 NOT_YET = {}
 
 NA_REASON_PENDING = "check not built yet in this session (planned; see DESIGN.md section 3)"
